@@ -13,9 +13,14 @@ byte strings / all chunkings, no size bound.
 import SquidModel.Base64.Top
 
 namespace SquidModel.C36
-open SquidModel.Base64
+open SquidModel.Base64 SquidModel.Base64.Basic
 
-/-! ## round trip -/
+/-- the decoder of lib/base64.cc (a third pad character is refused: fix fc382f5) -/
+abbrev Local : Nat := Gen.Base64.localPadLimit
+/-- the decoder of the libnettle this build links (a third pad character is let through) -/
+abbrev Nettle : Nat := Gen.Base64.nettlePadLimit
+
+/-! ## round trip (both implementations: `Impl lim` = lib/base64.cc or libnettle) -/
 
 /-- The streaming encoder does not depend on how the input is cut into update calls: init, any
 updates, final produce `base64_encode_raw` of the concatenation. -/
@@ -25,18 +30,19 @@ theorem encode_chunking_irrelevant (xs : List Bytes) : encodeChunks xs = encodeR
 
 /-- The streaming decoder does not depend on how the text is cut into update calls (same bytes,
 same accept/reject verdict). -/
-theorem decode_chunking_irrelevant (ys : List Bytes) : decodeChunks ys = decodeAll ys.flatten :=
-  decodeChunks_flatten ys
+theorem decode_chunking_irrelevant (lim : Nat) (ys : List Bytes) : decodeChunks lim ys = decodeAll lim ys.flatten :=
+  decodeChunks_flatten lim ys
 
 /-- Decoding the encoding of any byte string returns it exactly — for every chunking of the
 encoder input and every (independent) chunking of the decoder input. -/
-theorem decode_encode (xs ys : List Bytes) (h : ys.flatten = encodeChunks xs) : decodeChunks ys = some xs.flatten := by
+theorem decode_encode (lim : Nat) (hi : Impl lim) (xs ys : List Bytes) (h : ys.flatten = encodeChunks xs) :
+    decodeChunks lim ys = some xs.flatten := by
   rw [decode_chunking_irrelevant, h, encode_chunking_irrelevant]
-  exact decodeAll_canonical _ _ (strip_noWs_id _ (noWs_encodeRaw _))
+  exact decodeAll_canonical lim (impl_bounds hi).1 _ _ (strip_noWs_id _ (noWs_encodeRaw _))
 
 /-- The same with white space (HT LF VT FF CR SP) inserted anywhere in the text. -/
-theorem decode_encode_ws (x s : Bytes) (h : strip s = encodeRaw x) : decodeAll s = some x :=
-  decodeAll_canonical s x h
+theorem decode_encode_ws (lim : Nat) (hi : Impl lim) (x s : Bytes) (h : strip s = encodeRaw x) : decodeAll lim s = some x :=
+  decodeAll_canonical lim (impl_bounds hi).1 s x h
 
 /-- `base64_encode_group` (any 32-bit group value; bits above 24 are ignored) agrees with
 `base64_encode_raw` on the three bytes of the group. -/
@@ -46,8 +52,8 @@ theorem encode_group_agrees (a b c : UInt8) (hi : Nat) :
 
 /-- Encoding is injective. -/
 theorem encode_injective (x y : Bytes) (h : encodeRaw x = encodeRaw y) : x = y := by
-  have hx := decodeAll_canonical (encodeRaw x) x (strip_noWs_id _ (noWs_encodeRaw _))
-  have hy := decodeAll_canonical (encodeRaw y) y (strip_noWs_id _ (noWs_encodeRaw _))
+  have hx := decodeAll_canonical 2 (Nat.le_refl 2) (encodeRaw x) x (strip_noWs_id _ (noWs_encodeRaw _))
+  have hy := decodeAll_canonical 2 (Nat.le_refl 2) (encodeRaw y) y (strip_noWs_id _ (noWs_encodeRaw _))
   rw [h, hy] at hx
   exact (Option.some.inj hx).symm
 
@@ -55,17 +61,17 @@ theorem encode_injective (x y : Bytes) (h : encodeRaw x = encodeRaw y) : x = y :
 
 /-- Whatever was fed to the decoder before, one `base64_decode_update` call stores at most
 `BASE64_DECODE_LENGTH(src_length)` bytes — also when it fails part-way on malformed input. -/
-theorem decode_bound (before : List Bytes) (s : Bytes) :
-    (decodeUpdate (decodeCtxAfter decodeInit before) s).2.1.length ≤ decodeLength s.length := by
-  have hinv := dinv_after before decodeInit dinv_init
-  have := (update_inv s _ hinv).2
+theorem decode_bound (lim : Nat) (before : List Bytes) (s : Bytes) :
+    (decodeUpdate lim (decodeCtxAfter lim decodeInit before) s).2.1.length ≤ decodeLength s.length := by
+  have hinv := dinv_after lim before decodeInit dinv_init
+  have := (update_inv lim s _ hinv).2
   rw [decodeLength_eq]
   have h6 := hinv.2
   omega
 
 /-- The asserts of base64_decode_single / base64_decode_update cannot fire. -/
-theorem decode_no_assert (ctx : DecCtx) (s : Bytes) : (decodeUpdate ctx s).2.2 ≠ .assertFail :=
-  update_no_assert s ctx
+theorem decode_no_assert (lim : Nat) (ctx : DecCtx) (s : Bytes) : (decodeUpdate lim ctx s).2.2 ≠ .assertFail :=
+  update_no_assert lim s ctx
 
 /-- One `base64_encode_update` call emits at most `BASE64_ENCODE_LENGTH(length)` characters, final at
 most `BASE64_ENCODE_FINAL_LENGTH`, `base64_encode_raw` exactly `BASE64_ENCODE_RAW_LENGTH(length)`. -/
@@ -80,57 +86,63 @@ theorem encode_bound (before : List Bytes) (s : Bytes) :
   refine ⟨?_, hf, rfl⟩
   rcases hinv with h | h | h <;> omega
 
-/-! ## malformed input -/
+/-! ## malformed input — lib/base64.cc (full strength) -/
 
-/- Full statement (false of the code, see the counterexample below):
-     decodeAll s = some x → strip s = encodeRaw x
-   i.e. whatever is accepted is canonical RFC 4648 text with interleaved white space. -/
+/-- Whatever lib/base64.cc accepts is canonical RFC 4648 text with interleaved white space, and it
+decodes to exactly the bytes that text encodes: bad characters, missing or surplus padding, padding
+in the middle, data after padding, non-zero pad bits and a third pad character are all rejected. -/
+theorem malformed_rejected (s x : Bytes) (h : decodeAll Local s = some x) : strip s = encodeRaw x :=
+  decodeAll_sound Local (by decide) (by decide) s x h (Or.inl (by decide))
 
-/-- `"A==="` — a dangling sextet followed by three pad characters — is accepted and decodes to
-nothing (`ctx->padding > 2` is tested before the pad character is counted). -/
-theorem malformed_accepted_counterexample :
-    decodeAll [65, 61, 61, 61] = some [] ∧ strip [65, 61, 61, 61] ≠ encodeRaw [] := by decide
+/-- accepted ⇔ canonical -/
+theorem accepted_iff_canonical (s x : Bytes) : decodeAll Local s = some x ↔ strip s = encodeRaw x :=
+  ⟨malformed_rejected s x, decodeAll_canonical Local (by decide) s x⟩
+
+/-! ## malformed input — libnettle (the code the binary runs in this build) -/
+
+/- Full statement (false of libnettle 3.8.1, see the counterexample):
+     decodeAll Nettle s = some x → strip s = encodeRaw x -/
+
+/-- `"A==="` — a dangling sextet followed by three pad characters — is accepted by libnettle and
+decodes to nothing (`ctx->padding > 2` is tested before the pad character is counted). -/
+theorem nettle_malformed_accepted_counterexample :
+    decodeAll Nettle [65, 61, 61, 61] = some [] ∧ strip [65, 61, 61, 61] ≠ encodeRaw [] := by decide
 
 /-- The whole class of the defect: any number of full groups followed by `"A==="` is accepted. -/
-theorem malformed_accepted_class (x : Bytes) (h : x.length % 3 = 0) :
-    decodeAll (encodeRaw x ++ [65, 61, 61, 61]) = some x := by
-  rcases triple_pad_accepted x with h1 | h1
+theorem nettle_malformed_accepted_class (x : Bytes) (h : x.length % 3 = 0) :
+    decodeAll Nettle (encodeRaw x ++ [65, 61, 61, 61]) = some x := by
+  rcases triple_pad_accepted Nettle (by decide) x with h1 | h1
   · exact h1
   · exact absurd h h1
 
-/-- Outside that class the decoder is exact: if the text (white space removed) does not end in
-three pad characters, acceptance means it is the canonical encoding of the returned bytes; so
-bad characters, missing or surplus padding, padding in the middle, data after padding and
-non-zero pad bits are all rejected. -/
-theorem malformed_rejected_partial (s x : Bytes) (hpad : ¬ ([61, 61, 61] <:+ strip s))
-    (h : decodeAll s = some x) : strip s = encodeRaw x :=
-  decodeAll_sound s x h hpad
+/-- Outside that class libnettle is exact as well: if the text (white space removed) does not end
+in three pad characters, acceptance means it is the canonical encoding of the returned bytes. -/
+theorem nettle_malformed_rejected_partial (s x : Bytes) (hpad : ¬ ([61, 61, 61] <:+ strip s))
+    (h : decodeAll Nettle s = some x) : strip s = encodeRaw x :=
+  decodeAll_sound Nettle (by decide) (by decide) s x h (Or.inr hpad)
 
-/-- Together: for text not ending in three pads, accepted ⇔ canonical. -/
-theorem accepted_iff_canonical_partial (s x : Bytes) (hpad : ¬ ([61, 61, 61] <:+ strip s)) :
-    decodeAll s = some x ↔ strip s = encodeRaw x :=
-  ⟨fun h => decodeAll_sound s x h hpad, decodeAll_canonical s x⟩
+theorem nettle_accepted_iff_canonical_partial (s x : Bytes) (hpad : ¬ ([61, 61, 61] <:+ strip s)) :
+    decodeAll Nettle s = some x ↔ strip s = encodeRaw x :=
+  ⟨nettle_malformed_rejected_partial s x hpad, decodeAll_canonical Nettle (by decide) s x⟩
 
 /-! ## Basic credentials -/
-open SquidModel.Base64.Basic
 
 /-- Credentials `user ":" pass` (no colon in `user`, no NUL/CR/LF anywhere), base64-encoded in the header
 with optional white space: `decode` yields exactly `user` (lower-cased when `casesensitive` is off) and
-`pass`; an empty password is dropped with the "empty password" denial. -/
-theorem basic_split (cs : Bool) (hdr user pass : Bytes)
+`pass`; an empty password is dropped with the "empty password" denial.  (Either base64 implementation.) -/
+theorem basic_split (lim : Nat) (hi : Impl lim) (cs : Bool) (hdr user pass : Bytes)
     (hpay : strip (payload hdr) = encodeRaw (user ++ 58 :: pass))
     (hu : (58 : UInt8) ∉ user)
     (hctl : ∀ c ∈ user ++ 58 :: pass, c ≠ 0 ∧ c ≠ 10 ∧ c ≠ 13) :
-    Basic.decode cs hdr = some
+    Basic.decode lim cs hdr = some
       { user := if cs then user else user.map toLower
         pass := if pass = [] then none else some pass
         deny := if pass = [] then .emptyPassword else .none
         valid := !pass.isEmpty } := by
-  have hd := decodeAll_canonical _ _ hpay
-  have hnul : (0 : UInt8) ∉ user ++ 58 :: pass := fun h => (hctl 0 h).1 rfl
-  have hclear : decodeCleartext hdr = some (user ++ 58 :: pass) := by
+  have hd := decodeAll_canonical lim (impl_bounds hi).1 _ _ hpay
+  have hclear : decodeCleartext lim hdr = some (user ++ 58 :: pass) := by
     rw [decodeCleartext_some]
-    exact ⟨_, hd, (cstr_of_no_nul _ hnul).symm, fun h => (hctl 13 h).2.2 rfl, fun h => (hctl 10 h).2.1 rfl⟩
+    exact ⟨hd, fun h => (hctl 0 h).1 rfl, fun h => (hctl 13 h).2.2 rfl, fun h => (hctl 10 h).2.1 rfl⟩
   obtain ⟨t1, t2⟩ := takeWhile_colon user pass hu
   simp only [Basic.decode, hclear, t1, t2, List.drop_succ_cons, List.drop_zero]
   have hc : (user ++ 58 :: pass).contains 58 = true := by simp
@@ -140,32 +152,30 @@ theorem basic_split (cs : Bool) (hdr user pass : Bytes)
   | cons p ps => simp
 
 /-- Credentials without any colon: the whole text is the user name and there is no password. -/
-theorem basic_no_colon (cs : Bool) (hdr user : Bytes)
+theorem basic_no_colon (lim : Nat) (hi : Impl lim) (cs : Bool) (hdr user : Bytes)
     (hpay : strip (payload hdr) = encodeRaw user) (hu : (58 : UInt8) ∉ user)
     (hctl : ∀ c ∈ user, c ≠ 0 ∧ c ≠ 10 ∧ c ≠ 13) :
-    Basic.decode cs hdr = some
+    Basic.decode lim cs hdr = some
       { user := if cs then user else user.map toLower, pass := none, deny := .noPassword, valid := false } := by
-  have hd := decodeAll_canonical _ _ hpay
-  have hnul : (0 : UInt8) ∉ user := fun h => (hctl 0 h).1 rfl
-  have hclear : decodeCleartext hdr = some user := by
+  have hd := decodeAll_canonical lim (impl_bounds hi).1 _ _ hpay
+  have hclear : decodeCleartext lim hdr = some user := by
     rw [decodeCleartext_some]
-    exact ⟨_, hd, (cstr_of_no_nul _ hnul).symm, fun h => (hctl 13 h).2.2 rfl, fun h => (hctl 10 h).2.1 rfl⟩
+    exact ⟨hd, fun h => (hctl 0 h).1 rfl, fun h => (hctl 13 h).2.2 rfl, fun h => (hctl 10 h).2.1 rfl⟩
   have hc : user.contains 58 = false := by simpa using hu
   simp only [Basic.decode, hclear, hc, takeWhile_no_colon user hu, Bool.false_eq_true, ↓reduceIte]
 
 /-- Whatever `decode` extracts is free of NUL, CR and LF (nothing can be smuggled into the
 helper protocol line), the user name has no colon, and a password is never empty. -/
-theorem basic_result_clean (cs : Bool) (hdr : Bytes) (c : Creds) (h : Basic.decode cs hdr = some c) :
+theorem basic_result_clean (lim : Nat) (cs : Bool) (hdr : Bytes) (c : Creds) (h : Basic.decode lim cs hdr = some c) :
     (∀ b ∈ c.user, b ≠ 0 ∧ b ≠ 10 ∧ b ≠ 13 ∧ b ≠ 58) ∧
     (∀ p, c.pass = some p → p ≠ [] ∧ ∀ b ∈ p, b ≠ 0 ∧ b ≠ 10 ∧ b ≠ 13) ∧
     (c.valid = true ↔ c.pass.isSome = true) := by
   simp only [Basic.decode] at h
-  generalize hcl : decodeCleartext hdr = r at h
+  generalize hcl : decodeCleartext lim hdr = r at h
   cases r with
   | none => simp at h
   | some clear =>
-    obtain ⟨x, _, hx, h13, h10⟩ := (decodeCleartext_some hdr clear).mp hcl
-    have h0 : (0 : UInt8) ∉ clear := by rw [hx]; exact cstr_no_nul x
+    obtain ⟨_, h0, h13, h10⟩ := (decodeCleartext_some lim hdr clear).mp hcl
     have clean : ∀ b ∈ clear, b ≠ 0 ∧ b ≠ 10 ∧ b ≠ 13 := fun b hb =>
       ⟨fun e => h0 (e ▸ hb), fun e => h10 (e ▸ hb), fun e => h13 (e ▸ hb)⟩
     have huser : ∀ b ∈ clear.takeWhile (· ≠ 58), b ≠ 0 ∧ b ≠ 10 ∧ b ≠ 13 ∧ b ≠ 58 := by
@@ -207,88 +217,80 @@ theorem basic_result_clean (cs : Bool) (hdr : Bytes) (c : Creds) (h : Basic.deco
       subst h
       exact ⟨huser', by simp, by simp⟩
 
-/-- Provenance of accepted credentials: unless the payload ends in three pad characters (the
-defect above), it is the canonical base64 of some text `x`, and user/password are the split at
-the first colon of the part of `x` before its first NUL. -/
-theorem basic_sound_partial (cs : Bool) (hdr : Bytes) (c : Creds) (h : Basic.decode cs hdr = some c)
-    (hpad : ¬ ([61, 61, 61] <:+ strip (payload hdr))) :
-    ∃ x, strip (payload hdr) = encodeRaw x ∧
-      c.user = (if cs then (cstr x).takeWhile (· ≠ 58) else ((cstr x).takeWhile (· ≠ 58)).map toLower) ∧
-      (∀ p, c.pass = some p → cstr x = (cstr x).takeWhile (· ≠ 58) ++ 58 :: p) := by
-  simp only [Basic.decode] at h
-  generalize hcl : decodeCleartext hdr = r at h
-  cases r with
-  | none => simp at h
-  | some clear =>
-    obtain ⟨x, hd, hx, _, _⟩ := (decodeCleartext_some hdr clear).mp hcl
-    refine ⟨x, decodeAll_sound _ _ hd hpad, ?_, ?_⟩
-    · subst hx
-      simp only at h
-      by_cases hsep : (cstr x).contains 58 = true
-      · simp only [hsep, ↓reduceIte] at h
-        generalize ((cstr x).dropWhile (· ≠ 58)).drop 1 = p at h
-        cases p <;> (simp only [Option.some.injEq] at h; subst h; rfl)
-      · simp only [hsep, Bool.false_eq_true, ↓reduceIte, Option.some.injEq] at h
-        subst h; rfl
-    · subst hx
-      intro p hp
-      simp only at h
-      by_cases hsep : (cstr x).contains 58 = true
-      · simp only [hsep, ↓reduceIte] at h
-        have hsplit := dropWhile_colon_split (cstr x) (by simpa using hsep)
-        generalize hq : ((cstr x).dropWhile (· ≠ 58)).drop 1 = q at h hsplit
-        have hpq : p = q := by
-          cases q with
-          | nil => simp only [Option.some.injEq] at h; subst h; simp at hp
-          | cons q0 qs => simp only [Option.some.injEq] at h; subst h; simpa using hp.symm
-        subst hpq
-        conv => lhs; rw [← List.takeWhile_append_dropWhile (p := (· ≠ 58)) (l := cstr x)]
-        rw [hsplit]
-      · simp only [hsep, Bool.false_eq_true, ↓reduceIte, Option.some.injEq] at h
-        subst h; simp at hp
+/-- Credentials reach the helper whole or not at all (lib/base64.cc build, full strength): whatever
+`decode` returns comes from a payload that is the canonical base64 of a text `x` free of NUL, CR and LF,
+the user name is `x` up to its first colon (lower-cased when asked), a password is everything after
+that colon, and no password means `x` has no colon or nothing after it. -/
+theorem basic_sound (cs : Bool) (hdr : Bytes) (c : Creds) (h : Basic.decode Local cs hdr = some c) :
+    ∃ x, strip (payload hdr) = encodeRaw x ∧ (0 : UInt8) ∉ x ∧ (13 : UInt8) ∉ x ∧ (10 : UInt8) ∉ x ∧
+      c.user = (if cs then x.takeWhile (· ≠ 58) else (x.takeWhile (· ≠ 58)).map toLower) ∧
+      (∀ p, c.pass = some p → x = x.takeWhile (· ≠ 58) ++ 58 :: p) ∧
+      (c.pass = none → (58 : UInt8) ∉ x ∨ x = x.takeWhile (· ≠ 58) ++ [58]) :=
+  basic_sound_gen Local (by decide) (by decide) cs hdr c h (Or.inl (by decide))
 
-/- Full statement (false of the code): credentials reach the helper whole or not at all. -/
-/-- `Basic dXNlcjpwYQBzcw==` carries `user:pa\0ss`; decode hands out the password `pa`: the decoded
-text is used as a C string, so everything from the first NUL on is silently dropped. -/
-theorem nul_truncation_counterexample :
-    decodeAll (payload [66, 97, 115, 105, 99, 32, 100, 88, 78, 108, 99, 106, 112, 119, 89, 81, 66, 122, 99, 119, 61, 61])
-      = some [117, 115, 101, 114, 58, 112, 97, 0, 115, 115] ∧
-    Basic.decode true [66, 97, 115, 105, 99, 32, 100, 88, 78, 108, 99, 106, 112, 119, 89, 81, 66, 122, 99, 119, 61, 61]
-      = some ⟨[117, 115, 101, 114], some [112, 97], .none, true⟩ := by decide +kernel
+/-- The same through libnettle, outside the three-pad region of its decoder. -/
+theorem basic_sound_nettle_partial (cs : Bool) (hdr : Bytes) (c : Creds) (h : Basic.decode Nettle cs hdr = some c)
+    (hpad : ¬ ([61, 61, 61] <:+ strip (payload hdr))) :
+    ∃ x, strip (payload hdr) = encodeRaw x ∧ (0 : UInt8) ∉ x ∧ (13 : UInt8) ∉ x ∧ (10 : UInt8) ∉ x ∧
+      c.user = (if cs then x.takeWhile (· ≠ 58) else (x.takeWhile (· ≠ 58)).map toLower) ∧
+      (∀ p, c.pass = some p → x = x.takeWhile (· ≠ 58) ++ 58 :: p) ∧
+      (c.pass = none → (58 : UInt8) ∉ x ∨ x = x.takeWhile (· ≠ 58) ++ [58]) :=
+  basic_sound_gen Nettle (by decide) (by decide) cs hdr c h (Or.inr hpad)
+
+/-- Decoded credentials that contain NUL, CR or LF are refused (fix 54130c8 for NUL), with either decoder. -/
+theorem basic_ctl_refused (lim : Nat) (cs : Bool) (hdr x : Bytes) (hd : decodeAll lim (payload hdr) = some x)
+    (hbad : (0 : UInt8) ∈ x ∨ (13 : UInt8) ∈ x ∨ (10 : UInt8) ∈ x) : Basic.decode lim cs hdr = none := by
+  have : decodeCleartext lim hdr = none := by
+    cases hcl : decodeCleartext lim hdr with
+    | none => rfl
+    | some clear =>
+      obtain ⟨hd', h0, h13, h10⟩ := (decodeCleartext_some lim hdr clear).mp hcl
+      rw [hd] at hd'
+      cases hd'
+      rcases hbad with h | h | h
+      · exact absurd h h0
+      · exact absurd h h13
+      · exact absurd h h10
+  simp [Basic.decode, this]
 
 /-- The cleartext buffer of decodeCleartext (`BASE64_DECODE_LENGTH(srcLen)+1` bytes) is never
 overrun: the decoder stores at most `BASE64_DECODE_LENGTH(srcLen)` bytes (also on the failing
-path) and the terminating NUL lands inside the allocation — for every header. -/
-theorem basic_buffer_safe (hdr : Bytes) :
-    (clearMem hdr).written ≤ decodeLength (payload hdr).length ∧
-    (clearMem hdr).written + 1 ≤ (clearMem hdr).size ∧
-    ∀ k, (clearMem hdr).nulAt = some k → k < (clearMem hdr).size :=
-  clearMem_safe hdr
+path) and the terminating NUL lands inside the allocation — for every header, either decoder. -/
+theorem basic_buffer_safe (lim : Nat) (hdr : Bytes) :
+    (clearMem lim hdr).written ≤ decodeLength (payload hdr).length ∧
+    (clearMem lim hdr).written + 1 ≤ (clearMem lim hdr).size ∧
+    ∀ k, (clearMem lim hdr).nulAt = some k → k < (clearMem lim hdr).size :=
+  clearMem_safe lim hdr
 
 /-! ## the libnettle this build links -/
 
-/-- Same tables, same length macros: the model above is the model of both implementations. -/
+/-- Same tables, same length macros; the decoders differ only in the pad limit (2 vs 3, both probed). -/
 theorem nettle_same_tables :
     Gen.Base64.nettleDecodeTable = Gen.Base64.decodeTable ∧ Gen.Base64.nettleEncodeTable = Gen.Base64.encodeTable ∧
-    Gen.Base64.nettleMacrosAgree = true :=
-  ⟨nettle_same_decode_table, nettle_same_alphabet, nettle_same_macros⟩
+    Gen.Base64.nettleMacrosAgree = true ∧ Local = 2 ∧ Nettle = 3 :=
+  ⟨nettle_same_decode_table, nettle_same_alphabet, nettle_same_macros, local_lim, nettle_lim⟩
 
-/-! ## non-vacuity -/
+/-! ## non-vacuity / regression -/
 
+example : Impl Local := Or.inl rfl
+example : Impl Nettle := Or.inr rfl
 /-- "foobar" ↔ "Zm9vYmFy", through two-chunk encoding and bytewise decoding -/
 example : encodeChunks [[102, 111], [111, 98, 97, 114]] = [90, 109, 57, 118, 89, 109, 70, 121] := by decide
-example : decodeChunks [[90], [109], [57], [118], [89, 109, 70, 121]] = some [102, 111, 111, 98, 97, 114] := by decide
+example : decodeChunks Local [[90], [109], [57], [118], [89, 109, 70, 121]] = some [102, 111, 111, 98, 97, 114] := by decide
 /-- the decoder does reject: bad character, missing padding, non-zero pad bits, data after padding, pad in the middle -/
-example : decodeAll [90, 42, 57, 118] = none := by decide
-example : decodeAll [90, 109, 56] = none := by decide
-example : decodeAll [90, 110, 61, 61] = none := by decide
-example : decodeAll [90, 103, 61, 61, 90, 103, 61, 61] = none := by decide
-example : decodeAll [90, 61, 103, 61] = none := by decide
-/-- the hypothesis of `malformed_rejected_partial` holds for ordinary text, and fails for the witness -/
+example : decodeAll Local [90, 42, 57, 118] = none := by decide
+example : decodeAll Local [90, 109, 56] = none := by decide
+example : decodeAll Local [90, 110, 61, 61] = none := by decide
+example : decodeAll Local [90, 103, 61, 61, 90, 103, 61, 61] = none := by decide
+example : decodeAll Local [90, 61, 103, 61] = none := by decide
+/-- the former findings, now regression cases: lib/base64.cc refuses "A===" and "QUJDA===" -/
+example : decodeAll Local [65, 61, 61, 61] = none := by decide
+example : decodeAll Local [81, 85, 74, 68, 65, 61, 61, 61] = none := by decide
+/-- the hypothesis of `nettle_malformed_rejected_partial` holds for ordinary text, and fails for the witness -/
 example : ¬ ([61, 61, 61] <:+ strip [90, 103, 61, 61]) := by decide
 example : [61, 61, 61] <:+ strip [65, 61, 32, 61, 61] := by decide
 /-- `Basic QWxhZGRpbjpvcGVuIHNlc2FtZQ==` -/
-example : Basic.decode false [66, 97, 115, 105, 99, 32, 81, 87, 120, 104, 90, 71, 82, 112, 98, 106, 112, 118, 99, 71, 86, 117, 73,
+example : Basic.decode Nettle false [66, 97, 115, 105, 99, 32, 81, 87, 120, 104, 90, 71, 82, 112, 98, 106, 112, 118, 99, 71, 86, 117, 73,
     72, 78, 108, 99, 50, 70, 116, 90, 81, 61, 61]
     = some ⟨[97, 108, 97, 100, 100, 105, 110], some [111, 112, 101, 110, 32, 115, 101, 115, 97, 109, 101], .none, true⟩ := by
   decide +kernel
@@ -300,6 +302,11 @@ example : strip (payload [66, 97, 115, 105, 99, 32, 81, 87, 120, 104, 90, 71, 82
 example (scheme b64 : Bytes) (hs : ∀ c ∈ scheme, isGraph c = true) (hb : ∀ c ∈ b64, isGraph c = true) :
     payload (scheme ++ 32 :: b64) = b64 := payload_of_header scheme b64 hs hb
 /-- CR/LF inside the credentials are refused: base64("a:b\r\n") = "YTpiDQo=" -/
-example : Basic.decode true [66, 97, 115, 105, 99, 32, 89, 84, 112, 105, 68, 81, 111, 61] = none := by decide +kernel
+example : Basic.decode Local true [66, 97, 115, 105, 99, 32, 89, 84, 112, 105, 68, 81, 111, 61] = none := by decide +kernel
+/-- the former NUL finding, now a regression case: `Basic dXNlcjpwYQBzcw==` (`user:pa\0ss`) is refused by both builds -/
+example : Basic.decode Nettle true [66, 97, 115, 105, 99, 32, 100, 88, 78, 108, 99, 106, 112, 119, 89, 81, 66, 122, 99, 119, 61, 61] = none := by
+  decide +kernel
+example : Basic.decode Local true [66, 97, 115, 105, 99, 32, 100, 88, 78, 108, 99, 106, 112, 119, 89, 81, 66, 122, 99, 119, 61, 61] = none := by
+  decide +kernel
 
 end SquidModel.C36
